@@ -53,4 +53,74 @@ theorem skel_GetRequestURI_ok : skel_GetRequestURI = ([
   "IsProxied",
   "return uri"] : List String) := rfl
 
+theorem skel_NetSet_Has_ok : skel_NetSet_Has = ([
+  "if netMap.has(ip)",
+  "return true",
+  "return false"] : List String) := rfl
+
+theorem skel_NetSet_AddIPNet_ok : skel_NetSet_AddIPNet = ([
+  "ipNet.Mask.Size",
+  "for len(*netMaps) > i",
+  "if netMapOnes == ones",
+  "(*netMaps)[i].mask.Size",
+  "if netMap == nil",
+  "return"] : List String) := rfl
+
+theorem skel_NetSet_getNetMaps_ok : skel_NetSet_getNetMaps = ([
+  "case ip.To4() != nil",
+  "ip.To4",
+  "case ip.To16() != nil",
+  "ip.To16",
+  "case ",
+  "fmt.Sprintf",
+  "return netMaps"] : List String) := rfl
+
+theorem skel_ipNetMap_has_ok : skel_ipNetMap_has = ([
+  "ip.Mask",
+  "if ipMasked == nil",
+  "fmt.Sprintf",
+  "if ok",
+  "return true",
+  "return false"] : List String) := rfl
+
+theorem skel_ParseIPNet_ok : skel_ParseIPNet = ([
+  "if !strings.ContainsRune(s, '/')",
+  "net.ParseIP",
+  "if ip == nil",
+  "return nil",
+  "case ip.To4() != nil",
+  "ip.To4",
+  "case ip.To16() != nil",
+  "ip.To16",
+  "case ",
+  "return nil",
+  "return &net.IPNet{ IP: ip, Mask: mask, }",
+  "net.ParseCIDR",
+  "case err != nil",
+  "return nil",
+  "case !ipNet.IP.Equal(ip)",
+  "ipNet.IP.Equal",
+  "return nil",
+  "case ",
+  "return ipNet"] : List String) := rfl
+
+theorem skel_xForwardedForClientIPParser_GetRealClientIP_ok : skel_xForwardedForClientIPParser_GetRealClientIP = ([
+  "if realIP != \"\"",
+  "h.Get",
+  "return nil, nil",
+  "if commaIndex != -1",
+  "strings.IndexRune",
+  "strings.TrimSpace",
+  "if err == nil",
+  "net.SplitHostPort",
+  "net.ParseIP",
+  "if ip == nil",
+  "return nil, fmt.Errorf(\"unable to parse ip (%s) from %s header\", ipStr,",
+  "return ip, nil"] : List String) := rfl
+
+theorem skel_GetClientIP_ok : skel_GetClientIP = ([
+  "if p != nil",
+  "return p.GetRealClientIP(req.Header)",
+  "return getRemoteIP(req)"] : List String) := rfl
+
 end O2P.Expect.C15
